@@ -369,9 +369,9 @@ func TestC01(t *testing.T) {
 	}
 	seed := vh.Seed()
 	known := pickMsgs(vh.Sub(seed, "c01-known"), all, vh.Pick(24, 0))
-	nRandom := vh.Pick(6000, 400000)
-	nKnown := vh.Pick(40, 300)
-	nStreams := vh.Pick(12, 300)
+	nRandom := vh.Pick(30000, 400000)
+	nKnown := vh.Pick(120, 300)
+	nStreams := vh.Pick(40, 300)
 
 	for _, version := range []int{1, 2} {
 		for _, signed := range []bool{false, true} {
